@@ -59,6 +59,10 @@ const PAYEE_PATTERNS: &[&str] = &[
     "shop$",
     "(?P<code>\\d{3,})",
     "Zürich",
+    // groups that can take part in the match with an empty capture
+    "Coop(?P<code>\\d*)",
+    "^(?P<payee>.*)Migros",
+    "Transfer (?P<code>[a-z]*)(?P<payee>.*)",
 ];
 const CATEGORY_PATTERNS: &[&str] = &["Travel|Cash", "^Groceries$", "income", "Misc"];
 const ACCOUNTS: &[&str] = &["Expenses:Grocery", "Expenses:Travel", "Income:Salary", "Assets:Cash", "Expenses:Misc", "Assets:Wire"];
@@ -276,7 +280,7 @@ impl Check for C17 {
             account: Some("Assets:Base Bank"),
             account_type: Some("asset"),
             commodity: Some("CHF"),
-            operator: None,
+            operator: if rng.chance(1, 2) { Some("Generic Bank") } else { None },
             date_format: Some("%Y-%m-%d"),
             encoding: true,
             rules: (0..rng.usize(4)).map(|_| gen_rule(&mut rng)).collect(),
@@ -287,7 +291,7 @@ impl Check for C17 {
                 account: if rng.chance(1, 2) { Some(rng.pick_str(&["Assets:Checking", "Assets:Other", "Liabilities:Card"])) } else { None },
                 account_type: if rng.chance(1, 4) { Some(rng.pick_str(&["asset", "liability"])) } else { None },
                 commodity: if rng.chance(1, 3) { Some(rng.pick_str(&["USD", "EUR", "JPY"])) } else { None },
-                operator: if rng.chance(1, 4) { Some("Some Operator") } else { None },
+                operator: if rng.chance(1, 3) { Some(rng.pick_str(&["Some Operator", "Branch Office", "Card Services (fee)"])) } else { None },
                 date_format: if rng.chance(1, 3) { Some(rng.pick_str(&["%Y/%m/%d", "%d.%m.%Y"])) } else { None },
                 encoding: rng.chance(1, 4),
                 rules: (0..rng.usize(4)).map(|_| gen_rule(&mut rng)).collect(),
